@@ -216,6 +216,15 @@ pub fn plan(tier: Tier) -> Plan {
             }));
         }
     }
+    p.units.push(unit("twin-wide-nodes-under-tiny-caches", "twins".into(), move |st, rep| {
+        for (_, kvs) in twin_family() {
+            st.nontrivial += 1;
+            st.count("twin_cases", 1);
+            for g in GEOMS {
+                do_case(&kvs, Front::RawInsert, g, 0, st, rep);
+            }
+        }
+    }));
     for part in 0..16usize {
         p.units.push(unit("key-length-ladder-2..1100-(finite-family)", format!("length ladder part {}", part), move |st, rep| {
             for (_, kvs) in key_length_ladder(part, 16) {
